@@ -8,7 +8,7 @@ from .spec import Spec
 PROBS = [0.0, 0.3, 0.7, 0.999, 1.0]
 COSTS = [1, 2, 0.5, 2.25]
 SCAN_COSTS = [0, 0.5, 1, 3]
-VALUES = [-5, 0, 0, 1, 2.5]
+VALUES = [-5, 0, 0, 1, 2.5, 0.1, 2.1, -0.3]
 OS_NAMES = ["linux", "windows", "bsd", "plan9"]
 SRV_NAMES = ["ssh", "ftp", "http", "samba", "smtp", "rdp"]
 PROC_NAMES = ["tomcat", "daclsvc", "schtask", "cron"]
@@ -170,7 +170,8 @@ def synth(rng, tier="quick", route=None, **force):
         rng.shuffle(order)          # host_configurations in arbitrary order
     n_sens = min(len(addrs), rng.randint(1, 3))
     sens_addrs = rng.sample(addrs, n_sens)
-    sensitive = {a: rng.choice([100, 10, 0.5, 42.5]) for a in sens_addrs}
+    sensitive = {a: rng.choice([100, 10, 0.5, 42.5, 99.9, 1, 16777217])
+                 for a in sens_addrs}
     ex_srvs = [e["service"] for e in exploits.values()]
     hosts = {}
     for a in order:
